@@ -337,11 +337,27 @@ class Base:
                     return
                 raise
             return self.prove(kind, label, body, props, finding, tuple(extra_pc) + (rng,), src, extra_hyps)
-        if isinstance(f, FOr):
-            ts = [self.f_to_term(p) for p in f.parts]
-            if all(t is not None for t in ts):
-                return self._emit(kind, label, z3.Or(*ts), props, finding, extra_pc, src, extra_hyps)
+        if isinstance(f, (FOr, FEx)):
+            t = self.goal_term(f)
+            if t is not None:
+                return self._emit(kind, label, t, props, finding, extra_pc, src, extra_hyps)
         raise GenError("cannot prove formula shape %r (%s)" % (f, label))
+
+    def goal_term(self, f):
+        """z3 Bool for a GOAL that may contain existential leaves (bounded `any(..)`): they become z3 Exists terms (negated
+        in the query, i.e. a universal hypothesis for the solver's own instantiation); None for anything with a FAll leaf"""
+        if isinstance(f, FEx):
+            k = z3.FreshConst(Int, f.var)
+            body = self.goal_term(f.body(k))
+            if body is None:
+                return None
+            return z3.Exists([k], z3.And(self.z(f.lo) <= k, k < self.z(f.hi), body))
+        if isinstance(f, (FAnd, FOr)):
+            ts = [self.goal_term(p) for p in f.parts]
+            if any(t is None for t in ts):
+                return None
+            return z3.And(*ts) if isinstance(f, FAnd) else z3.Or(*ts)
+        return self.f_to_term(f)
 
     def _emit(self, kind, label, goal, props, finding, extra_pc, src, extra_hyps=()):
         sig = "".join("T" if d else "F" for d in self.decisions[:self.pos]) or "-"
